@@ -338,8 +338,10 @@ class UDataGen(gen.DataGen):
             def spell(full):
                 """the hint as the branch's full name, or (for the closure-free modes) its bare short name / a wrong namespace"""
                 q = rng.random()
-                if self.mode == "named" or q < 0.7:
+                if self.mode == "named" or q < 0.66:
                     return full
+                if q < 0.72 and isinstance(rb, dict):
+                    return rb["type"]                          # the type KEYWORD of a named branch is not its label
                 shortn = full.rsplit(".", 1)[-1]
                 return shortn if q < 0.88 else rng.choice(["zz.", "a.b.", "ns2."]) + shortn
             if mode == "tuple" and r < 0.7:
@@ -347,6 +349,9 @@ class UDataGen(gen.DataGen):
                 if rng.random() < 0.04:
                     return (rng.choice(["nope", "int", "R0", ""]), v)
                 lab = branch_label(b)
+                if not named_branch and rng.random() < 0.08:
+                    # wrong-but-plausible labels for unnamed branches (Python type names, "union", another type's keyword)
+                    return (rng.choice(["list", "dict", "str", "union", "record", "enum", "fixed", "error", "integer", "bool"]), v)
                 return (spell(lab) if named_branch else lab, v)
             if mode == "named" and named_branch and r < 0.7:
                 self.hints_made += 1
@@ -723,6 +728,13 @@ def sites(v, s, named, tn, rng, out, path=()):
         if isinstance(v, tuple) and tn and len(v) == 2:
             names = [branch_label(b) for b in s]
             other = [n for n in names if n != v[0]] + ["NoSuchBranch"]
+            if isinstance(v[0], str) and "." in v[0]:
+                other += [v[0].rsplit(".", 1)[-1]] * 3          # the bare short name of a namespaced type is not its label
+            for b in s:
+                rb = resolve(b, named)
+                if branch_label(b) == v[0] and isinstance(rb, dict) and rb["type"] in NAMED:
+                    other += [rb["type"]] * 2                    # nor is its type keyword
+            other = [n for n in other if n not in names] or other
             n2 = rng.choice(other)
             add("wrong-hint", lambda x, n2=n2: (n2, x[1]))
             add("tuple-arity", lambda x: (x[0], x[1], 0))
